@@ -403,11 +403,13 @@ pub struct Printer<'a> {
     pub p: &'a Program,
     pub out: String,
     ind: usize,
+    /// names of the `ref mut` parameters of the function being printed
+    refmut: Vec<String>,
 }
 
 impl<'a> Printer<'a> {
     pub fn new(p: &'a Program) -> Self {
-        Printer { p, out: String::new(), ind: 0 }
+        Printer { p, out: String::new(), ind: 0, refmut: vec![] }
     }
     fn line(&mut self, s: &str) {
         for _ in 0..self.ind {
@@ -567,7 +569,11 @@ impl<'a> Printer<'a> {
     pub fn tail(&mut self, stmts: &[Stmt], t: &Expr) {
         let ts = self.expr(t);
         let after_block = matches!(stmts.last(), Some(Stmt::If(..) | Stmt::While { .. } | Stmt::RevertIf(..)));
-        if after_block && (ts.starts_with('[') || ts.starts_with('(')) {
+        // a bare `ref mut` parameter as the value of an `if` branch / match arm yields its
+        // address (listed finding C01 `ref-mut-parameter-as-branch-value-yields-address`, with a
+        // fixed witness); generated programs read it through a let binding instead
+        let bare_refmut = matches!(&*t.k, EK::Var(n) if self.refmut.contains(n));
+        if bare_refmut || (after_block && (ts.starts_with('[') || ts.starts_with('('))) {
             let tn = self.tn(&t.ty);
             self.line(&format!("let tail_v: {tn} = {ts};"));
             self.line("tail_v");
@@ -702,7 +708,7 @@ impl Tw for bool { fn tw(self) -> bool { !self } }
 "#;
 
 pub fn print_program(p: &Program) -> String {
-    let mut pr = Printer { p, out: String::new(), ind: 0 };
+    let mut pr = Printer::new(p);
     pr.out.push_str("script;\n\n");
     pr.out.push_str(&p.types.decls());
     for (i, (t, v)) in p.consts.iter().enumerate() {
@@ -721,12 +727,14 @@ pub fn print_program(p: &Program) -> String {
         let params: Vec<String> = f.params.iter().map(|(n, t, r)| format!("{}{n}: {}", if *r { "ref mut " } else { "" }, p.types.name(t))).collect();
         pr.out.push_str(&format!("fn {}({}) -> {} {{\n", f.name, params.join(", "), p.types.name(&f.ret)));
         pr.ind = 1;
+        pr.refmut = f.params.iter().filter(|(_, _, r)| *r).map(|(n, _, _)| n.clone()).collect();
         for s in &f.body.stmts {
             pr.stmt(s);
         }
         if let Some(t) = &f.body.tail {
             pr.tail(&f.body.stmts, t);
         }
+        pr.refmut.clear();
         pr.ind = 0;
         pr.out.push_str("}\n\n");
     }
@@ -784,6 +792,9 @@ pub struct RefOutcome {
     /// encoded logs in order (those emitted before a revert included)
     pub logs: Vec<Vec<u8>>,
     pub steps: u64,
+    /// the run evaluated `place[index]` where evaluating `index` modified the variable the
+    /// place is rooted in: whether the old or the new contents are read is not specified
+    pub order_dependent: bool,
 }
 
 enum Flow {
@@ -800,6 +811,17 @@ pub struct Interp<'a> {
     pub op_hits: HashMap<String, u64>,
     subst: Option<Subst>,
     pub arith_errors: u32,
+    pub order_dependent: bool,
+}
+
+/// the variable a place expression (variable, field / tuple element / array element of a place)
+/// is rooted in
+fn place_root(e: &Expr) -> Option<&str> {
+    match &*e.k {
+        EK::Var(n) => Some(n.as_str()),
+        EK::Field(a, _) | EK::TupleGet(a, _) | EK::Index(a, _) => place_root(a),
+        _ => None,
+    }
 }
 
 #[derive(Clone, Copy, Debug, PartialEq, Eq)]
@@ -839,12 +861,12 @@ impl<'a> Interp<'a> {
     /// invalid arithmetic is documented undefined behaviour that the optimiser may remove when
     /// its result is dead). A second invalid operation reverts as usual.
     pub fn run_with(p: &'a Program, sel: u64, args: &[Val], subst: Option<Subst>) -> (RefOutcome, HashMap<String, u64>) {
-        let mut it = Interp { p, logs: vec![], steps: 0, op_hits: HashMap::new(), subst, arith_errors: 0 };
+        let mut it = Interp { p, logs: vec![], steps: 0, op_hits: HashMap::new(), subst, arith_errors: 0, order_dependent: false };
         let k = (sel as usize).min(p.entries.len() - 1);
         let f = p.entries[k];
         let r = it.call(f, args.to_vec()).map(|(v, _)| encoded(&p.ret, &v, &p.types));
         let hits = std::mem::take(&mut it.op_hits);
-        (RefOutcome { result: r, logs: it.logs, steps: it.steps }, hits)
+        (RefOutcome { result: r, logs: it.logs, steps: it.steps, order_dependent: it.order_dependent }, hits)
     }
 
     /// An invalid arithmetic operation: revert, or (first one, substitute mode) continue.
@@ -1248,7 +1270,13 @@ impl<'a> Interp<'a> {
             }
             EK::Index(a, i) => {
                 let arr = ev!(a);
+                let root_before = place_root(a).map(|n| lookup(env, n).clone());
                 let idx = ev!(i);
+                if let (Some(n), Some(before)) = (place_root(a), root_before) {
+                    if *lookup(env, n) != before {
+                        self.order_dependent = true;
+                    }
+                }
                 match arr {
                     Val::Array(vs) => {
                         let k = idx.int();
